@@ -970,7 +970,6 @@ SAMPLE_REORDER = {
     "roll": "rotates the rows", "sel": "selects rows by label", "drop_sel": "removes rows by label", "drop_isel": "removes rows by position",
     "thin": "keeps every n-th row", "coarsen": "merges neighbouring rows", "resample": "re-grids the rows", "groupby": "regroups the rows",
     "interp": "re-grids the rows", "interp_like": "re-grids the rows", "dropna": "removes rows by value", "drop_duplicates": "removes rows by label",
-    "sortby_": "", "argsort": "a permutation of the rows",
 }
 
 
